@@ -102,6 +102,24 @@ CHECKS["C19"] = dict(
           "bands; this property is the one furthest from TLA+'s home ground and is claimed at that stated strength."),
     design="3/C19 and NOTES-alg.md", technique="TLA+ exact point-set semantics + sampled real closures + TLC trace validation")
 
+CHECKS["C05"] = dict(
+    text=("ObjFormat.tla: OBJ statement machine (v/vt/vn pools, g, usemtl, four corner syntaxes), Denote(statements) and the writer "
+          "contract (every index in range of its own pool, denotation equals the source list, re-save loses or invents no face); TLC "
+          "enumerates mesh lists (attribute mixes, material partitions) and valid OBJ texts in every legal arrangement of g/usemtl; "
+          "the real writer output is tokenised by an independent tokenizer and run through the statement machine by TraceObj.tla, the "
+          "real reader is judged against Denote, and loaded meshes are re-saved and judged again."),
+    note=("Trusted base: TLC; independent tokenizer in harness/objfam; float32 precision of coordinates. One open known finding "
+          "(a zero-triangle mesh that is not last loses its group on read-back: needs a maintainer decision)."),
+    design="3/C05 and NOTES-objstl.md", technique="TLA+ format machine + TLC-generated files/meshes + TLC trace validation")
+CHECKS["C07"] = dict(
+    text=("StlFormat.tla: binary STL record machine, SizeLaw (84 + 50 n, count field), Denote, writer contract (record i = corner "
+          "positions of triangle i through the index as float32 bit patterns; facet normal = normalised mean of corner normals or the "
+          "geometric normal) and reader contract; TLC enumerates index patterns / record lists (n = 0 included); real WriteMesh bytes "
+          "are parsed by an independent parser and judged by TraceStl.tla; TLC-generated byte strings are read by the real reader and "
+          "read-write-parse must reproduce the records."),
+    note="Trusted base: TLC; independent STL parser/encoder in harness/stlfam; float32 images compared as two 16-bit halves.",
+    design="3/C07 and NOTES-objstl.md", technique="TLA+ record machine + TLC-generated inputs + TLC trace validation")
+
 NOT_APPLICABLE = []
 
 
